@@ -110,6 +110,7 @@ def main():
         print(detail)
         return 1 if ok else 0
     t0 = time.time()
+    import z3
     from pyvc import engine, stmts, smt
     from pyvc.state import OutOfSubset
     REG = load_specs()
@@ -138,6 +139,11 @@ def main():
         except KeyError as e:
             del E.goals[n0:]
             out_of_reach.append({"contract": c.key, "reason": "function not found: %s" % e})
+        except (AttributeError, TypeError, IndexError, AssertionError, ValueError, z3.Z3Exception) as e:
+            # the contract's shape assumptions (a local is a list, a loop exists, ...) no longer fit the code:
+            # the function is out of the contract's reach - undecided by proof, the native harness alone decides
+            del E.goals[n0:]
+            out_of_reach.append({"contract": c.key, "reason": "contract no longer fits the code (%s: %s)" % (type(e).__name__, str(e)[:200])})
     lemma_goals = []
     if props_mod is not None and hasattr(props_mod, "lemmas"):
         try:
@@ -165,7 +171,6 @@ def main():
     if a.tier == "thorough":
         # every discharged obligation is re-checked by cvc5 as well
         _add(smt.discharge([g for g in goals if g.status == "unsat"], timeout_s=timeout, stages=("cvc5",), both=True))
-    # vacuity guard: every precondition must be satisfiable / not refutable
     import z3
     vacuous = []
     for key, hyps in E.covers:
